@@ -375,6 +375,26 @@ class Block:
         if mn == 'jmp':
             return 'goto %s;' % self.find_label(k, ops[0])
         # ---------------- vector
+        if mn == 'vzeroupper':
+            return ' '.join('%s.q[2] = 0; %s.q[3] = 0;' % (self.V(i), self.V(i)) for i in sorted(self.vec_used))
+        if mn == 'vmovq':
+            a, b = ops
+            if self.vecreg(b) and self.mem(a):
+                x, n = self.vecreg(b)
+                v = self.V(n)
+                return 'memset(&%s, 0, 32); memcpy(&%s.q[0], %s, 8);' % (v, v, self.mem(a))
+            if self.vecreg(a) and self.mem(b):
+                x, n = self.vecreg(a)
+                return 'memcpy(%s, &%s.q[0], 8);' % (self.mem(b), self.V(n))
+            if self.vecreg(a) and self.vecreg(b):
+                (xa, na), (xb, nb) = self.vecreg(a), self.vecreg(b)
+                return '{ uint64_t t_ = %s.q[0]; memset(&%s, 0, 32); %s.q[0] = t_; }' % (self.V(na), self.V(nb), self.V(nb))
+            if self.vecreg(b):
+                x, n = self.vecreg(b)
+                v = self.V(n)
+                return 'memset(&%s, 0, 32); %s.q[0] = (uint64_t)%s;' % (v, v, R(self.operand_reg(a)))
+            x, n = self.vecreg(a)
+            return '%s = %s.q[0];' % (R(self.operand_reg(b)), self.V(n))
         if mn == 'vzeroall':
             return ' '.join('memset(&%s, 0, 32);' % self.V(i) for i in sorted(self.vec_used))
         if mn in ('vmovdqu', 'vmovupd', 'vmovapd', 'vmovdqa', 'vmovups', 'vmovaps'):
@@ -456,6 +476,12 @@ class Block:
                 xd, nd = self.vecreg(d)
                 v = self.V(nd)
                 return 'memset(&%s, 0, 32); %s.d[0] = (uint32_t)%s;' % (v, v, R(self.operand_reg(a)))
+            if self.vecreg(a) and self.mem(d):
+                xa, na = self.vecreg(a)
+                return 'memcpy(%s, &%s.d[0], 4);' % (self.mem(d), self.V(na))
+            if self.vecreg(a):
+                xa, na = self.vecreg(a)
+                return '%s = (uint64_t)%s.d[0];' % (R(self.operand_reg(d)), self.V(na))
             raise AsmError('vmovd form')
         if mn == 'vcvtdq2pd':
             a, d = ops
